@@ -50,6 +50,16 @@ pub(super) fn handle_prev_state<'i>(
 ) -> ExecutionResult<StateDescriptor> {
     use CallResult::*;
 
+    // arguments of an already executed call must have been resolved on this peer too,
+    // otherwise data and the script don't match each other
+    let resolved_argument_hash = |stored_value: String| {
+        argument_hash.ok_or_else(|| UncatchableError::InstructionParametersMismatch {
+            param: "call argument_hash",
+            expected_value: "<arguments aren't resolved yet>".to_string(),
+            stored_value,
+        })
+    };
+
     match met_result.result {
         // this call was failed on one of the previous executions,
         // here it's needed to bubble this special error up
@@ -64,7 +74,7 @@ pub(super) fn handle_prev_state<'i>(
                 .map_err(UncatchableError::from)?;
 
             verifier::verify_call(
-                argument_hash.as_ref().unwrap(),
+                resolved_argument_hash(service_result_aggregate.argument_hash.to_string())?,
                 tetraplet,
                 &service_result_aggregate.argument_hash,
                 &current_tetraplet,
@@ -91,7 +101,7 @@ pub(super) fn handle_prev_state<'i>(
                 Some(call_result) => {
                     update_state_with_service_result(
                         tetraplet.clone(),
-                        argument_hash.expect("Result for joinable error").clone(),
+                        resolved_argument_hash(format!("call result with id {call_id}"))?.clone(),
                         output,
                         call_result,
                         exec_ctx,
@@ -122,7 +132,7 @@ pub(super) fn handle_prev_state<'i>(
 
             populate_context_from_data(
                 value.clone(),
-                argument_hash.as_ref().unwrap(),
+                resolved_argument_hash(format!("{value:?}"))?,
                 tetraplet.clone(),
                 met_result.trace_pos,
                 met_result.source,
